@@ -4,7 +4,9 @@
    every run of `./check C03`; do not edit.  The lists `…Bodies` name the translated body of each class the
    live method table names as a supplier.  GenProps/C03Entry.lean proves the entry points equal to the model. -/
 import MenpoModel.Core.C03Entry
+import MenpoModel.Core.PyLoop
 import MenpoModel.Generated.C03Ladder
+set_option linter.unusedVariables false
 
 namespace MenpoModel.Generated.C03
 open MenpoModel.C03
@@ -47,7 +49,7 @@ def inplaceBodies (mt : MethodTable) (dir : Dir) : List (Sup × (Obj → Obj →
   [(.Homogeneous, onFam (genHomogInplace mt dir)), (.TransformChain, onChain (genChainInplace dir))]
 
 def genChainApply (g : Nat → Pt → Option Pt) (self : List Nat) (x : Pt) : Option Pt :=
-  pyReduce (fun xi0 tr0 => g tr0 xi0) self x
+  (List.foldl (fun xi0 tr0 => ((xi0).bind (g tr0))) (some x) self)
 
 def genNaiveCompose (mt : MethodTable) : Dir → Obj → Obj → Except Err Cell
   | .before, self, transform =>
